@@ -94,12 +94,20 @@ TSVerdict ==
   IN IF IsErrRel(Answer) THEN "undecided-plan-column-resolution"
      ELSE IF Canon(Answer.rows) \in adm THEN "ok" ELSE "model-input-not-admissible"
 
+\* a query shipped to an integration still carries an integration qualifier on a table or a column: evaluated THERE the
+\* name resolves to nothing, the fetch fails (the plan has no answer although the original query has one)
+Unstripped(q) == "unstripped" \in DOMAIN q /\ q.unstripped = 1
+ShipsQualifiedName ==
+  \E i \in 1..Len(P.steps) :
+     \/ P.steps[i].kind = "fetch" /\ Unstripped(P.steps[i].q)
+     \/ P.steps[i].kind \in {"multiple", "mapreduce"} /\ \E j \in 1..Len(P.steps[i].subs) : Unstripped(P.steps[i].subs[j].q)
 Verdict ==
   IF P.ts.on = 1 THEN TSVerdict ELSE
   LET o == Orig
       ordered == \A x \in o : x.ord
   IN
   IF \E r \in o : IsErrRel(r) THEN "undecided-original-not-in-fragment"
+  ELSE IF IsErrRel(Answer) /\ ShipsQualifiedName THEN "rows-differ:fetch-ships-a-qualified-name"
   ELSE IF IsErrRel(Answer) THEN "undecided-plan-column-resolution"
   ELSE IF ~\E r \in o : SameBag(Answer.rows, r.rows) THEN "rows-differ"
   ELSE IF ordered /\ ~(Answer.ord /\ \E r \in o : SameOrdered(Answer, r)) THEN "order-differs"
